@@ -200,6 +200,29 @@ pub fn run(opts: &Opts) -> Report {
             rep.model_case(vec![line], vec![match &got { Ok(b) => b.to_string(), Err(m) => format!("panic:{}", m) }], "test");
         }
     }
+    // ---------- the same (key, value) through every way of building a set: one id-less item ----------
+    {
+        let pairs: [(&str, &str); 4] = [("pos", "noun"), ("pos", "verb"), ("lemma", "noun"), ("pos", "noun")];
+        let count_idless = |ds: &ResultItem<AnnotationDataSet>, k: &str, v: &str| ds.data().filter(|d| d.id().is_none() && d.key().id() == Some(k) && d.value() == &DataValue::String(v.to_string())).count();
+        let mut check = |rep: &mut Report, how: &str, store: Result<AnnotationStore, String>| {
+            rep.count(&format!("dedup-path:{}", how));
+            rep.case(Some(&format!("dedup-path {}", how)));
+            let ctx = vec![format!("a dataset holding {:?} without identifiers, built through {}", pairs, how)];
+            match store {
+                Err(e) => rep.fail("oracle", &format!("vocabulary/dedup-path/{}/refused", how), ctx, "a dataset", &e),
+                Ok(st) => match st.dataset("set") {
+                    None => rep.fail("oracle", &format!("vocabulary/dedup-path/{}/no-dataset", how), ctx, "a dataset", "none"),
+                    Some(ds) => { for (k, v) in [("pos", "noun"), ("pos", "verb"), ("lemma", "noun")] { let n = count_idless(&ds, k, v); if n != 1 { rep.fail("oracle", &format!("vocabulary/dedup-path/{}", how), ctx.clone(), &format!("one id-less item for ({}, {})", k, v), &format!("{} items; all data: {:?}", n, ds.data().map(|d| format!("{:?}:{}={:?}", d.id(), d.key().id().unwrap_or("?"), d.value())).collect::<Vec<_>>())); break; } } }
+                }
+            }
+        };
+        let guardb = |f: &dyn Fn() -> Result<AnnotationStore, StamError>| -> Result<AnnotationStore, String> { match guarded(std::panic::AssertUnwindSafe(|| f())) { Ok(Ok(s)) => Ok(s), Ok(Err(e)) => Err(format!("{}", e)), Err(m) => Err(format!("PANIC {}", m)) } };
+        check(&mut rep, "AnnotationDataSetBuilder::with_key_value", guardb(&|| { let mut b = AnnotationDataSetBuilder::new().with_id("set"); for (k, v) in pairs { b = b.with_key_value(k, v); } let mut st = AnnotationStore::default(); st.add_dataset(b)?; Ok(st) }));
+        check(&mut rep, "AnnotationDataSetBuilder::with_data", guardb(&|| { let mut b = AnnotationDataSetBuilder::new().with_id("set"); for (k, v) in pairs { b = b.with_data(AnnotationDataBuilder::new().with_key(k.into()).with_value(v.into())); } let mut st = AnnotationStore::default(); st.add_dataset(b)?; Ok(st) }));
+        check(&mut rep, "AnnotationStore::insert_data", guardb(&|| { let mut st = AnnotationStore::default(); st.add_dataset(AnnotationDataSetBuilder::new().with_id("set"))?; for (k, v) in pairs { st.insert_data(AnnotationDataBuilder::new().with_dataset("set".into()).with_key(k.into()).with_value(v.into()))?; } Ok(st) }));
+        check(&mut rep, "annotate(with_data)", guardb(&|| { let mut st = AnnotationStore::default().with_resource(TextResourceBuilder::new().with_id("r").with_text("hello world"))?; for (i, (k, v)) in pairs.iter().enumerate() { st.annotate(AnnotationBuilder::new().with_target(SelectorBuilder::textselector("r", Offset::simple(i, i + 1))).with_data("set", *k, *v))?; } Ok(st) }));
+        check(&mut rep, "one annotation naming the pair twice", guardb(&|| { let mut st = AnnotationStore::default().with_resource(TextResourceBuilder::new().with_id("r").with_text("hello world"))?; let mut b = AnnotationBuilder::new().with_target(SelectorBuilder::textselector("r", Offset::simple(0, 1))); for (k, v) in pairs { b = b.with_data("set", k, v); } st.annotate(b)?; Ok(st) }));
+    }
     // ---------- find_data = scan ----------
     let nstores = if opts.thorough() { 400 } else { 60 };
     for si in 0..nstores {
